@@ -55,6 +55,26 @@ func (t *Table) SetAttributeDefinition(attrs []*types.AttributeDefinition) {
 	}
 }
 
+// CheckAttributeDefinition rejects a definition that changes the type of an attribute that is a key of the table or of one of its indexes
+func (t *Table) CheckAttributeDefinition(attrs []*types.AttributeDefinition) error {
+	used := map[string]bool{t.KeySchema.HashKey: true, t.KeySchema.RangeKey: true}
+
+	for _, i := range t.Indexes {
+		used[i.keySchema.HashKey] = true
+		used[i.keySchema.RangeKey] = true
+	}
+
+	for _, attr := range attrs {
+		name := types.StringValue(attr.AttributeName)
+
+		if typ, ok := t.AttributesDef[name]; ok && used[name] && typ != types.StringValue(attr.AttributeType) {
+			return types.NewError("ValidationException", fmt.Sprintf("Attribute %q is a key of type %s, it can not be redefined as %s", name, typ, types.StringValue(attr.AttributeType)), nil)
+		}
+	}
+
+	return nil
+}
+
 func parseKeySchema(schema []*types.KeySchemaElement) (keySchema, error) {
 	var ks keySchema
 
